@@ -89,7 +89,12 @@ var propTable = map[string]propInfo{
 			"validation is disabled, otherwise replaces it by an empty entry, and records exactly the index the accepted entry will get (stepLeader#conf-gate, #conf-index, " +
 			"loop invariant #pending-conf); becomeLeader sets pendingConfIndex to its last index; hup refuses to campaign while a committed conf change is unapplied " +
 			"(hasUnappliedConfChanges is proved to scan exactly (applied, committed], through raftLog.scan and its callback). " +
-			"The confchange package and switchToConfig are assumed contracts; that all nodes derive the same configurations is not decided here.",
+			"applyConfChange runs the operation selected by the change's shape (raftpb.ConfChangeV2.LeaveJoint/EnterJoint are under contract) on the current tracker and " +
+			"installs its result through switchToConfig, both verified against their bodies: the installed configuration satisfies the configuration invariants, every " +
+			"progress record is either the carried-over record of a remaining peer (all flow-control fields equal, inflight window shared) or the initial record of a new " +
+			"one, a leader that lost its voter status steps down in its term only if StepDownOnRemoval, and the hard state only moves forward. A rejected change panics by " +
+			"design; that the application applies only accepted changes is the listed environment assumption E-app-conf. That all nodes derive the same configurations " +
+			"(determinism of the operation on equal inputs across nodes) is not decided here.",
 	},
 	"C11": {
 		Level: "other",
@@ -114,8 +119,10 @@ var propTable = map[string]propInfo{
 			"voter, and Simple changes the incoming voter set in at most one id; when they reject they return the zero configuration; in both cases the input sets, progress map, " +
 			"progress records and inflight windows are not written (the work happens on fresh copies: checkAndCopy, tracker.Config.Clone). checkInvariants is proved to imply the " +
 			"invariants when it returns nil; apply/makeVoter/makeLearner/remove/initProgress carry the working-state invariant. symdiff (count of the symmetric difference) is an " +
-			"assumed contract. Second sentence (Restore reproduces an equivalent configuration from a ConfState) is NOT decided: confchange.Restore, ProgressTracker.ConfState and " +
-			"ConfState.Equivalent are not under contract (raft.restore only proves that Restore is handed a fresh empty tracker).",
+			"assumed contract. The progress records of an accepted result are pairwise distinct and each is the carried-over copy of the input's record for that id or an initial " +
+			"record (records_result). ProgressTracker.ConfState lists each of the four id sets exactly once in ascending order (ids_of, via MajorityConfig.Slice) and copies AutoLeave; " +
+			"raft.applyConfChange/switchToConfig install exactly the returned configuration. Second sentence (Restore reproduces an equivalent configuration from a ConfState) is NOT " +
+			"decided: confchange.Restore and ConfState.Equivalent are not under contract (raft.restore only proves that Restore is handed a fresh empty tracker).",
 	},
 	"C14": {
 		Level: "other",
@@ -129,7 +136,10 @@ var propTable = map[string]propInfo{
 		Explanation: commonMethod + "limitSize (non-empty maximal prefix within the budget), Inflights ring buffer (count <= size; Add requires not Full; FreeLE frees exactly " +
 			"the maximal prefix), Progress flow control (SentEntries/IsPaused), maybeSendAppend (no entries while the window is full; message size within maxMsgSize unless " +
 			"a single entry), uncommitted-size accounting (increase refuses exactly when it would pass the limit and the tail is non-empty; reduce saturates at 0; " +
-			"Step reduces by the payload size of what was applied), restore keeps MaxInflight/MaxInflightBytes.",
+			"Step reduces by the payload size of what was applied), restore keeps MaxInflight/MaxInflightBytes. No append to a peer with a pending snapshot: " +
+			"maybeSendAppend/sendAppend send nothing to a peer in StateSnapshot and leave State and PendingSnapshot alone, and stepLeader leaves the sender's pending snapshot " +
+			"pending on MsgUnreachable, MsgHeartbeatResp, MsgTransferLeader and rejected MsgAppResp (#snapshot-stays-pending; it is resolved only by MsgSnapStatus or an " +
+			"accepting MsgAppResp). A configuration change carries the flow-control state of remaining peers over unchanged and starts new peers with an empty window of the configured size.",
 	},
 	"C17": {
 		Level: "other",
